@@ -89,7 +89,22 @@ var (
 
 func resetPools() {
 	for _, p := range pools {
-		p.spare = append(p.spare, p.stack...)
+		for _, x := range p.stack {
+			// a buffer that was released twice sits in the stack twice: recycling both entries would
+			// alias two buffers of a later, innocent run
+			dup := false
+			if b, ok := x.([]byte); ok && cap(b) > 0 {
+				for _, y := range p.spare {
+					if c, ok := y.([]byte); ok && cap(c) > 0 && &c[:1][0] == &b[:1][0] {
+						dup = true
+						break
+					}
+				}
+			}
+			if !dup && len(p.spare) < 64 {
+				p.spare = append(p.spare, x)
+			}
+		}
 		if len(p.spare) > 64 {
 			p.spare = p.spare[:64]
 		}
